@@ -66,8 +66,11 @@ def run(ctx):
     reps = {k: gens.unit(rr, k) for k in gens.UNIT_KINDS}
     L = 5 if ctx.thorough else 3
     hs = []
+    core = ["ENQ", "EOT", "ACK", "NAK", "final", "inter", "corrupt", "stxgarb", "garb", "empty", "crlf+ctl"]
     for length in range(1, L + 1):
-        for combo in itertools.product(gens.UNIT_KINDS, repeat=length):
+        # every unit class up to length 4; the longest sequences over the eleven classes that differ in how they are
+        # dispatched (the others are answered like one of these)
+        for combo in itertools.product(gens.UNIT_KINDS if length <= 4 else core, repeat=length):
             fmt = FORMATS[(hash(combo) if False else sum(len(c) for c in combo) + length) % len(FORMATS)]
             evs = [("d", reps[k]) for k in combo]
             hs.append((fmt, evs + gens.PROBE, {"kinds": list(combo), "nontrivial": nontrivial(list(combo))}))
